@@ -17,11 +17,14 @@ func init() {
 		Rule: "per case: a pair of valid IDs generated relationally (identical, ancestor, descendant, sibling of an ancestor differing in exactly one axis, descendant of a sibling, unrelated), " +
 			"mixed zooms per axis, negative f, sub-metre zooms; extended form on any IDs, spatial (radix tree) form on h==v IDs with z>=1 and f inside the +-2^24 m window incl. its top and bottom index; " +
 			"both argument orders, self-overlap, and list pairs of 0-6 IDs (incl. empty first/second/both) compared with the OR of the pairwise oracle. " +
-			"Non-trivial = the two IDs differ; distinct by (id1,id2,lists).",
+			"Non-trivial = the two IDs differ; distinct by (id1,id2,lists). Both tiers start with the exhaustive sweep of all ordered pairs of IDs with h,v <= 2.",
 		Assume: []string{"reference: overlap(a,b) iff on each axis one index is the floor ancestor-or-equal of the other", "spatial form is only judged inside the documented altitude window (outside it the documented outcome is an error, judged by C15)"},
-		N:      tierN(150_000, 6_000_000),
-		Floor:  tierN(1000, 10000),
-		Run:    runC05,
+		N:      func(t string) int64 { return c05Exhaustive() + tierN(150_000, 6_000_000)(t) },
+		Exhaustive: func(string) []string {
+			return []string{"every ordered pair of the 294 IDs with h <= 2 and v <= 2 (86436 pairs), pairwise, array and (inside the altitude window) tree-based form"}
+		},
+		Floor: tierN(1000, 10000),
+		Run:   runC05,
 	})
 }
 
@@ -116,7 +119,66 @@ func inWindow(a ref.ID) bool {
 	return a.F >= -m && a.F < m
 }
 
+// exhaustive sub-scope: every ordered pair of the 294 IDs with h <= 2, v <= 2
+var c05Small []ref.ID
+
+func c05SmallIDs() []ref.ID {
+	if c05Small == nil {
+		for h := int64(0); h <= 2; h++ {
+			for v := int64(0); v <= 2; v++ {
+				for x := int64(0); x < pow2(h); x++ {
+					for y := int64(0); y < pow2(h); y++ {
+						for f := -pow2(v); f < pow2(v); f++ {
+							c05Small = append(c05Small, ref.ID{H: h, X: x, Y: y, V: v, F: f})
+						}
+					}
+				}
+			}
+		}
+	}
+	return c05Small
+}
+
+func c05Exhaustive() int64 { n := int64(len(c05SmallIDs())); return n * n }
+
+func runC05Small(c *core.Case) {
+	ids := c05SmallIDs()
+	n := int64(len(ids))
+	a, b := ids[c.I/n], ids[c.I%n]
+	sa, sb := a.Ext(), b.Ext()
+	want := ref.Overlap(a, b)
+	c.Tag("exhaustive-small-pairs")
+	c.KS(sa, sb)
+	if a != b {
+		c.NonTrivial()
+	}
+	c.Desc = func() any { return map[string]any{"id1": sa, "id2": sb, "expected_overlap": want} }
+	g, e := detector.CheckExtendedSpatialIdsOverlap(sa, sb)
+	c.Call()
+	if e != nil || g != want {
+		c.Fail("overlap-value-small-scope", nil, "CheckExtendedSpatialIdsOverlap(%s,%s) = (%v,%v), reference %v", sa, sb, g, e, want)
+		return
+	}
+	ga, ea := detector.CheckExtendedSpatialIdsArrayOverlap([]string{sa}, []string{sb})
+	c.Call()
+	if ea != nil || ga != want {
+		c.Fail("overlap-array-small-scope", nil, "CheckExtendedSpatialIdsArrayOverlap([%s],[%s]) = (%v,%v), reference %v", sa, sb, ga, ea, want)
+		return
+	}
+	if inWindow(a) && inWindow(b) {
+		gs, es := detector.CheckSpatialIdsOverlap(a.Spatial(), b.Spatial())
+		c.Call()
+		if es != nil || gs != want {
+			c.Fail("overlap-spatial-small-scope", nil, "CheckSpatialIdsOverlap(%s,%s) = (%v,%v), reference %v", a.Spatial(), b.Spatial(), gs, es, want)
+		}
+	}
+}
+
 func runC05(c *core.Case) {
+	if c.I < c05Exhaustive() {
+		runC05Small(c)
+		return
+	}
 	r := c.R
 	square := r.P(0.45)
 	var a ref.ID
